@@ -30,7 +30,7 @@ opt :: (v: i32) -> ?i32 { v }
 '''
 
 NAMES = ("a", "b")
-KINDS = ["blk", "if", "while", "switch:a", "switch:b", "lambda:a", "lambda:b", "cparam:a", "cparam:b", "comptime:a", "comptime:b"]
+KINDS = ["blk", "if", "while", "switch:a", "switch:b", "switchd:a", "switchd:b", "lambda:a", "lambda:b", "cparam:a", "cparam:b", "comptime:a", "comptime:b"]
 
 
 def leaf_seqs(maxlen):
@@ -154,6 +154,15 @@ class Gen:
             self.seq(sub, frames)
             frames["scopes"].pop()
             self.emit("}, nil => {} }")
+        elif kind.startswith("switchd:"):
+            # the same with a default arm instead of the `nil` arm (the default arm binds the whole optional)
+            name = kind[8:]
+            v = self.fresh_val()
+            self.emit(f"switch {name} in opt({v}) {{ i32 => {{")
+            frames["scopes"].append({name: v})
+            self.seq(sub, frames)
+            frames["scopes"].pop()
+            self.emit("}, _ => {} }")
         elif kind.startswith("lambda:"):
             name = kind[7:]
             v = self.fresh_val()
